@@ -128,8 +128,9 @@ def convStr (vm vs : Variant) (name : Str) : Conv → Val → Option Str
   | .delimitedObject, x => (dictItems x).map fun kvs => makeDelimited vs [44] kvs
   | .labelPrimitive, x =>
     match x with
-    | .prim p => some (if truthyPrim p then 46 :: itemStr vs p else [])
-    | y => if truthy y then none else some []
+    | .prim .null => some []
+    | .prim p => some (46 :: itemStr vs p)
+    | _ => none
   | .labelArray e, x =>
     (iterItems x).map fun items => dotIf 46 (joinWith [if isTrue e then 46 else 44] (items.map (itemStr vs))) []
   | .labelObject e, x =>
